@@ -15,6 +15,7 @@ type Value struct {
 	L   []*Term
 	LV  *LValue  // pointer values with a Go-side address
 	Clo *Closure // func values known on the path
+	Orig string  // provenance of func values: "global:<pkg>.<Var>"
 }
 
 type Closure struct {
